@@ -683,19 +683,27 @@ func (r *refinementNumber) GoString() string {
 }
 
 func (r *refinementNumber) assertConsistentBounds() {
-	if r.min == NilVal || r.max == NilVal {
-		return // If only one bound is constrained then there's nothing to be inconsistent with
+	// A bound that hasn't been refined is effectively an inclusive infinity,
+	// so a single bound can still be inconsistent with that: nothing is
+	// greater than positive infinity or less than negative infinity.
+	min, minInc := r.min, r.minInc
+	if min == NilVal {
+		min, minInc = NegativeInfinity, true
+	}
+	max, maxInc := r.max, r.maxInc
+	if max == NilVal {
+		max, maxInc = PositiveInfinity, true
 	}
 	var ok Value
-	if r.minInc && r.maxInc {
-		ok = r.min.LessThanOrEqualTo(r.max)
+	if minInc && maxInc {
+		ok = min.LessThanOrEqualTo(max)
 	} else {
 		// If either bound is exclusive then equal bounds describe an
 		// empty range.
-		ok = r.min.LessThan(r.max)
+		ok = min.LessThan(max)
 	}
 	if ok.IsKnown() && ok.False() {
-		panic(fmt.Sprintf("number lower bound %#v is greater than upper bound %#v", r.min, r.max))
+		panic(fmt.Sprintf("number lower bound %#v is greater than upper bound %#v", min, max))
 	}
 }
 
